@@ -24,6 +24,8 @@ def _wrap(x, cont):
     a = np.array(x, dtype=float)
     if cont in ('ndarray', 'ndarray-edge'):
         return a
+    if cont == 'int-ndarray':       # an integer-typed array: nothing may be written back into it, nor may it make the call fail
+        return np.array(x).astype(np.int64)
     if cont == 'ro-ndarray':
         a.setflags(write=False)
         return a
@@ -80,6 +82,8 @@ def entries():
             x = np.linspace(0.05, 0.95, 7) if meth == 'percent_point' else np.linspace(0.0, 12.0, 9)
             if cont == 'ndarray-edge':      # values at and beyond the edges of the support / of [0, 1]
                 x = np.array([0.0, 1.0, 0.5, 1e-300, 1 - 1e-16]) if meth == 'percent_point' else np.array([-1e6, 0.0, -0.0, 1e-300, 3.0, 1e6, -1e300, 1e300])
+            if cont == 'int-ndarray':
+                x = np.array([0, 1, 1, 0]) if meth == 'percent_point' else np.arange(0, 13, 2)
             args = {'X': _wrap(x, cont)}
             return args, lambda a: getattr(m, meth)(a['X'])
         return mk
@@ -87,7 +91,7 @@ def entries():
         for meth in ('probability_density', 'cumulative_distribution', 'percent_point', 'log_probability_density'):
             if cls == 'GaussianKDE' and meth == 'log_probability_density':
                 continue
-            E['%s.%s' % (cls, meth)] = (('ndarray', 'ro-ndarray', 'ndarray-edge'), uni_query(cls, meth))
+            E['%s.%s' % (cls, meth)] = (('ndarray', 'ro-ndarray', 'ndarray-edge', 'int-ndarray'), uni_query(cls, meth))
 
     def sel_uni(cont):
         from copulas.univariate import GaussianUnivariate, GammaUnivariate
